@@ -252,36 +252,61 @@ impl<S: BuildHasher + Default + Clone + Send + Sync + 'static> ConcurrentSet
         Self: 'x;
 
     fn insert_element(&self, element: Self::Element) -> bool {
-        let read = self.0.read();
-        match &*read {
+        {
+            let read = self.0.read();
+
+            match &*read {
+                TieredStorage::Small(vec_lock) => {
+                    let mut vec = vec_lock.write();
+
+                    if vec.len() < 32 {
+                        if vec.contains(&element) {
+                            return false;
+                        }
+
+                        vec.push(element);
+
+                        return true;
+                    }
+
+                    // full: upgrade below, under the exclusive outer lock
+                }
+
+                TieredStorage::Large(set) => return set.insert(element),
+            }
+        }
+
+        // Upgrade to large storage. The exclusive outer lock guarantees that
+        // no other inserter is inside (or queued on) the small vector while
+        // its content is moved; the tier is re-checked because another thread
+        // may have upgraded (or shrunk the vector) in the meantime.
+        let mut write = self.0.write();
+
+        match &mut *write {
             TieredStorage::Small(vec_lock) => {
-                let mut vec = vec_lock.write();
+                let vec = vec_lock.get_mut();
 
-                // Upgrade to large storage if exceed threshold
-                if vec.len() == 32 {
-                    let large_set = DashSet::with_hasher(S::default());
+                if vec.contains(&element) {
+                    return false;
+                }
 
-                    for item in vec.drain(..) {
-                        large_set.insert(item);
-                    }
-
-                    let result = large_set.insert(element);
-
-                    drop(vec);
-                    drop(read);
-
-                    *self.0.write() = TieredStorage::Large(large_set);
-
-                    result
-                } else {
-                    if vec.contains(&element) {
-                        return false;
-                    }
-
+                if vec.len() < 32 {
                     vec.push(element);
 
-                    true
+                    return true;
                 }
+
+                let large_set = DashSet::with_hasher(S::default());
+
+                for item in vec.drain(..) {
+                    large_set.insert(item);
+                }
+
+                let result = large_set.insert(element);
+
+                *write = TieredStorage::Large(large_set);
+
+                result
             }
 
             TieredStorage::Large(set) => set.insert(element),
